@@ -26,7 +26,7 @@ pub fn image(v: &dyn Var, rng: &mut Rng) -> Vec<u8> {
     b
 }
 
-fn special_images(v: &dyn Var, rng: &mut Rng) -> Vec<Vec<u8>> {
+pub fn special_images(v: &dyn Var, rng: &mut Rng) -> Vec<Vec<u8>> {
     let n = v.size();
     let mut out = vec![vec![0u8; n]];
     if !STRICT {
@@ -55,6 +55,25 @@ fn special_images(v: &dyn Var, rng: &mut Rng) -> Vec<Vec<u8>> {
             t[v.ck_len()] %= 170;
         }
         out.push(t);
+    }
+    // sparse headers: each header byte (checksum bytes, length code, Q ratios) alone zero, and alone non-zero
+    let hdr = v.ck_len() + 2;
+    for p in 0..hdr {
+        let mut a = image(v, rng);
+        for q in 0..hdr {
+            if a[q] == 0 {
+                a[q] = 1;
+            }
+        }
+        let mut b = a.clone();
+        a[p] = 0;
+        for q in 0..hdr {
+            if q != p {
+                b[q] = 0;
+            }
+        }
+        out.push(a);
+        out.push(b);
     }
     // uniform images (every byte the same) with unequal nibbles
     for x in [0x1bu8, 0xe4, 0x5a, 0x07, rng.byte()] {
